@@ -155,3 +155,34 @@ Definition bad_allowance_vanishes : trace :=
   let cs := [(Approve 0%N 1%N 1000 5000, [0%N])] in
   let s := run cP (init cP) cs in
   forged cP cs (Advance 0, []) true (set_alw s 0%N 1%N (0, 0)).
+
+(* ------------------------------------------------------------------ *)
+(* no address is exempt from the lists (the shape of seeded change C16-6: the token contract's own
+   address treated as implicitly and irrevocably allowed) *)
+(* 19. an address reads as allowed right after deployment although the constructor never allowed it *)
+Definition bad_born_listed : trace :=
+  mkTrace cA (with_list (observe cA (init cA)) [Some false; Some false; Some true]) [].
+(* 20. disallow_user succeeds, the getter says "not allowed", and the address still receives *)
+Definition bad_disallow_ineffective : trace :=
+  let cs := [(AllowUser 0%N 0%N, []); (AllowUser 2%N 0%N, []); (Mint 0%N 50, []); (DisallowUser 2%N 0%N, [])] in
+  let s := run cA (init cA) cs in
+  forged cA cs (Transfer 0%N 2%N 5, [0%N]) true
+         (disallow_user (fst (step cA (allow_user s 2%N) (Transfer 0%N 2%N 5, [0%N]))) 2%N).
+(* 21. block list: block_user succeeds and the getter says "blocked", yet the address still receives *)
+Definition bad_block_ineffective : trace :=
+  let cs := [(Mint 0%N 50, []); (BlockUser 2%N 0%N, [])] in
+  let s := run cB (init cB) cs in
+  forged cB cs (Transfer 0%N 2%N 5, [0%N]) true
+         (block_user (fst (step cB (unblock_user s 2%N) (Transfer 0%N 2%N 5, [0%N]))) 2%N).
+
+(* a reachable state of the allow-list example in which address 1 holds 100 tokens and is closed, and a
+   continuation that tries everything short of re-allowing it *)
+Definition cAE : cfg := mkCfg KAllowEx 4 0%N 3%N 100000 1000 0 5.
+Definition frozen_prefix : list call :=
+  [(AllowUser 1%N 3%N, [3%N]); (AllowUser 2%N 3%N, [3%N]); (Transfer 0%N 1%N 100, [0%N]);
+   (Approve 1%N 2%N 50 900, [1%N]); (DisallowUser 1%N 3%N, [3%N])].
+Definition frozen_suffix : list call :=
+  [(Transfer 1%N 2%N 5, [1%N]); (Transfer 0%N 1%N 5, [0%N]); (TransferMux 0%N 1%N 7 5, [0%N]);
+   (TransferFrom 2%N 1%N 0%N 5, [2%N]); (TransferFrom 2%N 0%N 1%N 0, [2%N]); (Burn 1%N 5, [1%N]);
+   (BurnFrom 2%N 1%N 5, [2%N]); (Mint 1%N 5, [0%N]); (DisallowUser 1%N 3%N, [3%N]); (AllowUser 2%N 1%N, [1%N]);
+   (Advance 600000, []); (Transfer 0%N 1%N 1, [0%N]); (AllowUser 0%N 3%N, [3%N]); (Transfer 0%N 2%N 1, [0%N])].
